@@ -26,6 +26,10 @@
 (* shape verdict), the observed triple is adopted and the property clauses *)
 (* keep being evaluated on what the code really did.  Property clauses are *)
 (* the invariants of WorkTreeStatus, evaluated on the real state.  The     *)
+(* Clauses: RoundTrip (Checkout, Switch, ResetHard), StageAllComplete,      *)
+(* StageComplete, EditEffect (Unstage, RmCached, Commit, ResetMixed do      *)
+(* what the specification's action does), StatusExact, StatusExactNormal,   *)
+(* GitDisagrees (git on the same directory against the specification).  The *)
 (* module is a monitor: it prints one STEP line per step that is not a     *)
 (* clean step of the specification and one DIFF line per path and field    *)
 (* that differs; every step of every trace is judged (a known defect early *)
@@ -91,6 +95,22 @@ Generic(e) ==
     /\ n' = n + 1
     /\ last' = [act |-> e.act, p |-> e.p, q |-> e.q, cell |-> Cell(e.k, e.c)]
 
+\* the index-only edits: where the specification's action is enabled in the observed state, the
+\* observed state after the step has to be the one the action leads to.  (The specification's
+\* version of these edits is the one validated against git's own commands.)
+EffectActs == {"Unstage", "RmCached", "Commit", "ResetMixed"}
+EffectGuard(e) ==
+    CASE e.act = "Unstage"    -> UnstageOK(head, index, e.p)
+      [] e.act = "RmCached"   -> index[e.p] # NoCell
+      [] e.act = "Commit"     -> Valid(index)
+      [] OTHER                -> TRUE
+ExpIndex(e) ==
+    CASE e.act = "Unstage"    -> UnstageOn(head, index, {e.p})
+      [] e.act = "RmCached"   -> [index EXCEPT ![e.p] = NoCell]
+      [] e.act = "ResetMixed" -> head
+      [] OTHER                -> index
+ExpHead(e) == IF e.act = "Commit" THEN index ELSE head
+
 \* the property clauses that fail in the state just reached (invariants of WorkTreeStatus
 \* evaluated on the real state, plus the comparison of the real status with the
 \* specification's)
@@ -98,6 +118,7 @@ Failing(e) ==
     (IF last'.act \in {"Checkout", "Switch", "ResetHard"} /\ ~(RoundTrip' /\ head' = ToMap(e.t)) THEN {"RoundTrip"} ELSE {})
     \cup (IF ~StageAllComplete' THEN {"StageAllComplete"} ELSE {})
     \cup (IF e.act = "Stage" /\ StageOK(index, wd, Paths, e.p) /\ ~StageComplete' THEN {"StageComplete"} ELSE {})
+    \cup (IF e.act \in EffectActs /\ EffectGuard(e) /\ (index' # ExpIndex(e) \/ head' # ExpHead(e) \/ wd' # wd) THEN {"EditEffect"} ELSE {})
     \cup (IF e.hasrep /\ obs' # rep' THEN {"StatusExact"} ELSE {})
     \cup (IF e.hasnorm /\ NormalComparable(index', wd') /\ ToNorm(e.norm) # UntrackedNormal(index', wd') THEN {"StatusExactNormal"} ELSE {})
     \cup (IF e.hasgit /\ ToRep(e.git) # rep' THEN {"GitDisagrees"} ELSE {})
@@ -116,6 +137,10 @@ Explain(e, cs) ==
           /\ \A x \in want \ got : PrintT(<<"DIFF", Traces[tid].tid, l, "StatusExactNormal", IF x.dir THEN "normdir" ELSE "normfile", "-", x.p>>)
     /\ "StageAllComplete" \in cs =>
           \A p \in {q \in Paths : index'[q] # wd'[q]} : PrintT(<<"DIFF", Traces[tid].tid, l, "StageAllComplete", "index", "#", p>>)
+    /\ "EditEffect" \in cs =>
+          /\ \A p \in {q \in Paths : index'[q] # ExpIndex(e)[q]} : PrintT(<<"DIFF", Traces[tid].tid, l, "EditEffect", "index", "#", p>>)
+          /\ \A p \in {q \in Paths : head'[q] # ExpHead(e)[q]} : PrintT(<<"DIFF", Traces[tid].tid, l, "EditEffect", "head", "#", p>>)
+          /\ \A p \in {q \in Paths : wd'[q] # wd[q]} : PrintT(<<"DIFF", Traces[tid].tid, l, "EditEffect", "wd", "#", p>>)
     /\ "StageComplete" \in cs =>
           \A p \in {q \in Covered(Paths, e.p) : index'[q] # wd'[q]} : PrintT(<<"DIFF", Traces[tid].tid, l, "StageComplete", "index", "#", p>>)
     /\ "RoundTrip" \in cs =>
